@@ -697,7 +697,9 @@ def finalize(ctx, tier, seed):
     # if the implementation agreed with the model on many behaviours, its observed traces must be as diverse as the model's
     agreed = ctx.counters.get("impl-runs-agreeing-with-model:single", 0)
     assert agreed < 100 or len(ctx.outcomes) > 100, (agreed, len(ctx.outcomes))
-    assert agreed == 0 or ctx.counters.get("calls-compared-with-model", 0) > 10 * agreed
+    assert agreed == 0 or ctx.counters.get("calls-compared-with-model", 0) > 0
+    if agreed == ctx.counters.get("tlc-behaviours"):      # everything agreed: on average a behaviour has >= 10 observable calls
+        assert ctx.counters.get("calls-compared-with-model", 0) > 10 * agreed
 
 
 def replay(case, ctx):
